@@ -55,11 +55,23 @@ def fam_auto(seed, n):
             t = X.mul(V(p), [V('x'), X.call('sin', V('z')), X.pw(V('x'), 2), C(1)][i % 4])
             terms_z = X.sub(terms_z, t) if i % 2 else X.add(terms_z, t)
         vars_ = {'x': ('state', fp()), 'z': ('state', fp()), 'u': ('input', fp())}
+        if npar in (11, 18):
+            # a parameter that only a boundary condition names, declared BEFORE the parameters of the vector field
+            vars_['bq'] = ('const', fp())
         for p in names:       # declaration order p0, p1, ...
             vars_[p] = ('const', fp())
         if k % 4 == 2:
             vars_['p1'] = ('const', F(0))      # a parameter whose value is exactly 0 keeps its declared slot
         op = OpSpec('ao', [('x', 'de', terms_x), ('z', 'de', terms_z)], vars_, output='x')
+        if k % 8 in (1, 6):
+            # an operator with a SINGLE equation that uses all its parameters, in an order other than the declared one
+            terms = None
+            for i, p in enumerate(use):
+                t = X.mul(V(p), [V('x'), X.call('tanh', V('u')), X.pw(V('x'), 2), X.call('sigmoid', V('x')), V('u'),
+                                 X.call('absv', V('x'))][i % 6])
+                terms = t if terms is None else (X.sub(terms, t) if i % 3 == 2 else X.add(terms, t))
+            vars_ = {k_: v_ for k_, v_ in vars_.items() if k_ != 'z'}
+            op = OpSpec('ao', [('x', 'de', terms)], vars_, output='x')
         li = families.op_leaky(fp)
         ops = {'ao': op, 'li': li}
         nodes = {'n0': NodeSpec(['ao'], {}), 'n1': NodeSpec(['li'], {})}
@@ -374,6 +386,10 @@ def run(tier='quick', seed=0, only=None, verbose=False):
         if npar >= 10:
             bcs = [f"u0_x - par_p{npar - 1}*u1_z", "u1_x - par_p1", f"u0_z - par_p9 - par_p{npar - 2}"]
             ics = [f"u_z - par_p{npar - 3}", "u_x*par_p0 - par_p8"]
+            if 'bq' in s.ops['ao'].vars:
+                bcs = bcs + ["u1_x - par_bq*u0_x"]
+            if 'z' not in s.ops['ao'].vars:
+                bcs, ics = [b.replace('_z', '_x') for b in bcs], [i_.replace('_z', '_x') for i_ in ics]
             jobs.append(dict(key=k + '|bvp', spec=s, kw=dict(auto_constants=('bvp',), boundary_conditions=bcs,
                                                             integral_constraints=ics)))
     if only:
